@@ -113,6 +113,8 @@ prop('C05',
      parts=[
          dict(name='enum', engine='E3', pkg='pipes', test='TestC05Enum', kind='plain',
               quick=dict(shards=8), thorough=dict(shards=16, timeout=3000)),
+         dict(name='any-elements', engine='E3', pkg='pipes', test='TestC05Any', replay_test='TestReplayAny',
+              quick=dict(cases=4000, shards=1), thorough=dict(cases=100000, shards=4, timeout=3000)),
          dict(name='seq', engine='E3', pkg='pipes', test='TestC05Seq',
               quick=dict(cases=10000, shards=1), thorough=dict(cases=200000, shards=8, timeout=3000)),
          dict(name='rapid', engine='E3', pkg='pipes', test='TestC05',
@@ -179,6 +181,8 @@ prop('C08',
            'besides the sequential sender, batches start 1..8 INDEPENDENT one-shot senders (several goroutines parked on a full send buffer while the cancel arrives; their values may arrive in any order, each at most once, every completed one delivered); in 25% of the scenarios a pipe of another element type (string) runs through a few values first in the same process; non-trivial = backlog >= 2 at some quiescent point and (the stream ends with a backlog / racing sends, or the queue drained to empty and refilled at least twice); distinct = different canonical scenario'),
      assumptions=E3_ASSUME + ['no send is started after a completed cancel (the library closes the send side on cancel by design); a send racing the cancel may complete, give up or hit the closed channel - only completed sends enter the model'],
      parts=[
+         dict(name='any-elements', engine='E3', pkg='pipes', test='TestC08Any', replay_test='TestReplayAny',
+              quick=dict(cases=4000, shards=1), thorough=dict(cases=100000, shards=4, timeout=3000)),
          dict(name='enum', engine='E3', pkg='pipes', test='TestC08Enum', kind='plain',
               quick=dict(shards=4), thorough=dict(shards=16, timeout=3000)),
          dict(name='rapid', engine='E3', pkg='pipes', test='TestC08',
@@ -203,6 +207,8 @@ prop('C09',
                               'Lift-mode fork stages are checked for closure, leaks and sub-multisets only (each worker stops at its own first failure)',
                               'in the free-running tier a hang is a 20 s timeout and reported as inconclusive; termination is decided by the bubble tier'],
      parts=[
+         dict(name='any-elements', engine='E3', pkg='pipes', test='TestC09Any', replay_test='TestReplayAny',
+              quick=dict(cases=4000, shards=1), thorough=dict(cases=100000, shards=4, timeout=3000)),
          dict(name='gated', engine='E4', pkg='pipes', test='TestC09',
               quick=dict(cases=5000, shards=6), thorough=dict(cases=240000, shards=16, timeout=3000)),
          dict(name='race', engine='E4', pkg='pipes', test='TestC09Race', race=True, replay_test='TestReplayFree', env=dict(GORACE='halt_on_error=1'),
@@ -278,6 +284,8 @@ prop('C12',
            'the slice of channels handed to Join is overwritten right after the call; one scenario in eight hands the same channel to Join twice (multiset oracle, no invented values); non-trivial = k >= 2, two non-empty inputs, sends alternate between inputs; distinct = different canonical scenario'),
      assumptions=E3_ASSUME,
      parts=[
+         dict(name='any-elements', engine='E3', pkg='pipes', test='TestC12Any', replay_test='TestReplayAny',
+              quick=dict(cases=4000, shards=1), thorough=dict(cases=100000, shards=4, timeout=3000)),
          dict(name='enum', engine='E3', pkg='pipes', test='TestC12Enum', kind='plain',
               quick=dict(shards=4), thorough=dict(shards=16, timeout=3000)),
          dict(name='rapid', engine='E3', pkg='pipes', test='TestC12',
